@@ -148,6 +148,9 @@ def run(c):
   c.proof_stage()
   stores_stage(c)
   noncanonical_names_stage(c)
+  # resource names: both datastores key everything by them (RAM parses, SQL matches the string)
+  from vcheck import resourcecheck
+  resourcecheck.stage(c)
   backends = ['ram', 'sqlmem', 'sqlfile']
   cfgs = svccheck.identify_flags(c, backends, report=('deleteCascadesOps', 'metadataAtomic'))
   n = 70 if c.tier == 'quick' else 800
